@@ -17,6 +17,7 @@ package ion
 
 import (
 	"fmt"
+	"math"
 	"strconv"
 )
 
@@ -94,9 +95,18 @@ func (st *SymbolToken) Equal(o *SymbolToken) bool {
 // Parses text of the form '$n' for some integer n.
 func symbolIdentifier(symbolText string) (int64, bool) {
 	if len(symbolText) > 1 && symbolText[0] == '$' {
-		if sid, err := strconv.Atoi(symbolText[1:]); err == nil {
-			return int64(sid), true
+		// Digits only: "$+5" and "$-1" are ordinary symbol text.
+		for i := 1; i < len(symbolText); i++ {
+			if symbolText[i] < '0' || symbolText[i] > '9' {
+				return SymbolIDUnknown, false
+			}
 		}
+		sid, err := strconv.ParseInt(symbolText[1:], 10, 64)
+		if err != nil {
+			// Still a symbol ID, only larger than any table's: no symbol table defines it.
+			return math.MaxInt64, true
+		}
+		return sid, true
 	}
 
 	return SymbolIDUnknown, false
